@@ -11,11 +11,20 @@ import sys
 import types
 
 CALLS = []  # records of backend calls in the current scenario run
-MODE = {"symbolic": True}
+MODE = {"symbolic": True, "adversarial": True}
+HOOKS = {"before_eval": None}  # scenario callback(point as list of all-parameter or free-parameter values) before an objective evaluation at a fresh point
+
+
+def _before(point):
+    h = HOOKS.get("before_eval")
+    if h is not None:
+        h(list(point))
 
 
 def reset():
     del CALLS[:]
+    HOOKS["before_eval"] = None
+    MODE["adversarial"] = True
 
 
 def _sx():
@@ -50,10 +59,15 @@ class SymOpt:
         x0 = list(snp.asarray(x0).d)
         n = len(x0)
         rec = dict(kind="opt.minimize", n=n, x0=x0, bounds=None if bounds is None else [tuple(b) for b in bounds], constraints=list(constraints or ()), method=method, tol=tol)
-        fun(snp.array(_fresh_vec("opt%d_pre" % k, n)))  # arbitrary evaluation before
+        if MODE["adversarial"]:
+            pre = _fresh_vec("opt%d_pre" % k, n)
+            _before(pre)
+            fun(snp.array(pre))  # arbitrary evaluation before
         q = _fresh_vec("opt%d_q" % k, n)
         rec["q"] = q
+        _before(q)
         rec["fq"] = fun(snp.array(q))  # objective identity probe
+        rec["V_at_q"] = DECOMP[-1][1] if DECOMP else None  # the matrix the cost kernel consumed for this evaluation
         xs = _fresh_vec("opt%d_x" % k, n)
         if bounds is not None:
             for xi, b in zip(xs, bounds):
@@ -66,9 +80,13 @@ class SymOpt:
             if c.get("type") == "eq":
                 e.assume(c["fun"](snp.array(xs)) == 0)
         rec["x"] = xs
+        _before(xs)
         f = fun(snp.array(xs))
         rec["fun"] = f
-        fun(snp.array(_fresh_vec("opt%d_post" % k, n)))  # the last evaluation is NOT at the optimum
+        if MODE["adversarial"]:
+            post = _fresh_vec("opt%d_post" % k, n)
+            _before(post)
+            fun(snp.array(post))  # the last evaluation is NOT at the optimum
         CALLS.append(rec)
         return types.SimpleNamespace(x=snp.array(xs), fun=f, success=True, status=0, message="stub", nit=1)
 
@@ -94,6 +112,7 @@ class RecOpt:
         cons = [c for c in (kw.get("constraints") or ()) if c.get("type") == "eq"]
         if not cons:
             rec["fq"] = float(fun(q))  # also leaves the objective evaluated away from the optimum
+            rec["V_at_q"] = DECOMP[-1][1] if DECOMP else None
         else:
             rec["fq"] = None
             fun(x + 0.0)
@@ -257,14 +276,19 @@ class SymMinuit:
         return [self.values[i] if self.fixed[i] else e.fresh("mn%d_%s_%d" % (k, tag, i)) for i in range(len(self.names))]
 
     def _visit(self, tag):
-        self.fcn(*self._point(tag))
+        if MODE["adversarial"]:
+            pt = self._point(tag)
+            _before(pt)
+            self.fcn(*pt)
 
     def migrad(self, ncall=None, **kw):
         e = _sx().cur()
         k = len(CALLS)
         self._visit("pre")
         q = self._point("q")
+        _before(q)
         fq = self.fcn(*q)
+        v_at_q = DECOMP[-1][1] if DECOMP else None
         start = list(self.values)
         new = []
         for i in range(len(self.names)):
@@ -284,10 +308,11 @@ class SymMinuit:
             self.errors[i] = err
         for i, v in enumerate(new):
             self.values[i] = v
+        _before(new)
         fx = self.fcn(*new)
         self._visit("post")
         self.fmin = types.SimpleNamespace(edm=0.0, up=self.errordef, has_covariance=True, has_made_posdef_covar=False, has_accurate_covar=True, is_valid=True, fval=fx)
-        CALLS.append(dict(kind="migrad", start=start, fixed=list(self.fixed), limits=list(self.limits), q=q, fq=fq, x=list(new), fun=fx, errors=list(self.errors), errordef=self.errordef))
+        CALLS.append(dict(kind="migrad", start=start, fixed=list(self.fixed), limits=list(self.limits), q=q, fq=fq, V_at_q=v_at_q, x=list(new), fun=fx, errors=list(self.errors), errordef=self.errordef))
         return self
 
     def hesse(self, **kw):
@@ -360,8 +385,15 @@ def make_rec_minuit():
 
     class RecMinuit(real.Minuit):
         def migrad(self, *a, **kw):
+            import numpy as np
+
+            start = list(self.values)
             r = real.Minuit.migrad(self, *a, **kw)
-            CALLS.append(dict(kind="migrad", x=list(self.values), errors=list(self.errors), fixed=list(self.fixed), limits=list(self.limits), fun=float(self.fval), q=None, fq=None, errordef=self.errordef))
+            x = np.array(list(self.values), dtype=float)
+            q = [x[i] if self.fixed[i] else x[i] + 0.37 * (1.0 + abs(x[i])) * (-1) ** i for i in range(len(x))]
+            fq = float(self.fcn(q))  # adversarial extra evaluation: the objective is left away from the optimum
+            CALLS.append(dict(kind="migrad", start=start, x=list(x), errors=list(self.errors), fixed=list(self.fixed), limits=list(self.limits), fun=float(self.fval), q=q, fq=fq,
+                              V_at_q=DECOMP[-1][1] if DECOMP else None, errordef=self.errordef))
             return r
 
         def mncontour(self, p1, p2, **kw):
@@ -376,6 +408,42 @@ def make_rec_minuit():
 
 
 # ------------------------------------------------------------------------------------------------
+
+
+DECOMP = []  # matrices handed to the Cholesky / QR decomposition nodes (most recent last)
+
+
+def install_decomp_recorder(max_iterations=None):
+    """record every matrix that reaches cholesky_decomposition / qr_decomposition inside a fit's graph; optionally
+    bound the iterative-refit loop (kafe2's own default is 10 iterations)"""
+    import kafe2  # noqa: F401
+
+    M = sys.modules
+    fitmod = M["kafe2.fit._base.fit"]
+    if getattr(fitmod, "_vx_decomp", False):
+        return
+    fitmod._vx_decomp = True
+    for nm in ("cholesky_decomposition", "qr_decomposition"):
+        orig = getattr(fitmod, nm)
+
+        def make(orig_, nm_):
+            def rec(mat):
+                DECOMP.append((nm_, mat))
+                return orig_(mat)
+
+            rec.__name__ = orig_.__name__
+            return rec
+
+        setattr(fitmod, nm, make(orig, nm))
+    if max_iterations is not None:
+        real_kc = fitmod.kc
+
+        def kc(*keys):
+            if keys == ("fit", "iterative_do_fit", "max_iterations"):
+                return max_iterations
+            return real_kc(*keys)
+
+        fitmod.kc = kc
 
 
 def install_backends(symbolic):
